@@ -7,6 +7,7 @@
    cells - known finding D14). *)
 From Coq Require Import ZArith List Bool Reals. Import ListNotations.
 From PV Require Import Num NumR model.Geom proofs.LatticeFacts proofs.SiteFacts proofs.OverlapFacts proofs.PackingFacts proofs.LJFacts proofs.RedescribeFacts proofs.LatticeSumFacts proofs.OriginShift.
+From PV Require Import gen.GenFns proofs.SourceFacts.
 
 Theorem C03_lj_sum_formula :
   forall st : ljstateR, lj_sum NumR rpowi st = (incell_sum st + / 2 * image_sum st)%R.
@@ -115,4 +116,17 @@ Theorem C03_lj_relative_length :
   forall st : ljstateR, length (lj_relative NumR st) = lj_copies st.
 Proof. exact lj_relative_length. Qed.
 Print Assumptions C03_lj_relative_length.
+
+
+Theorem C03_lj_energy_is_source :
+  forall (NN : Num) (powi : carrier NN -> Z -> carrier NN) (a b : lj NN), gen_lj_energy NN powi
+    a b = lj_energy NN powi a b.
+Proof. exact lj_energy_is_source. Qed.
+Print Assumptions C03_lj_energy_is_source.
+
+Theorem C03_lj_final_is_source :
+  forall (NN : Num) (powi : carrier NN -> Z -> carrier NN) (st : ljstate NN), gen_lj_final NN st
+    (lj_sum NN powi st) = lj_score NN powi st.
+Proof. exact lj_final_is_source. Qed.
+Print Assumptions C03_lj_final_is_source.
 
